@@ -8,7 +8,7 @@
    list of public calls and collects everything each call returned. *)
 From Coq Require Import Strings.String Strings.Byte.
 From Coq Require Import List Arith NArith ZArith Bool Lia.
-From Verif Require Import Base.Bytes Base.Val Base.Outcome Model.Quote Model.Pools Proofs.PoolsProofs.
+From Verif Require Import Base.Bytes Base.Val Model.Pools Proofs.PoolsProofs.
 Import ListNotations.
 
 (* ============================ reset_is_fresh, per pooled type ======================= *)
